@@ -435,7 +435,7 @@ struct L11 : Listener {
 
 CaseResult runC11(const Case &c, RunCtx &ctx) {
     CaseResult r;
-    Interp in(ctx);
+    Interp in(ctx, "C11");
     L11 L(r); in.L = &L;
     in.run(c);
     r.nontrivial = L.negative > 0;
